@@ -22,7 +22,6 @@ using namespace ace_time;
 
 Print VerifSerial;
 extern "C" unsigned long millis() { return 0; }
-long ace_time_verif_basic_dropped = 0;
 
 static std::vector<const char*> g_names;   // name pointer of every registry entry
 static std::vector<int> g_probes;
